@@ -587,6 +587,31 @@ pub fn check_queries(g: &G, m: &Model, names: &[String], order_known: bool, prop
             q.fail("get_all_node_names", "differs-from-node-list", json!({"got": nn}));
         }
     }
+    // the kind checks every algorithm relies on describe the same graph as the specs and the
+    // edge list do
+    {
+        let all_weighted = m.edges.iter().all(|e| !e.w.is_nan());
+        if let Some(h) = call!("edges_have_weight", g.edges_have_weight()) {
+            if h != all_weighted {
+                q.fail("edges_have_weight", "differs-from-edge-list", json!({"got": h, "want": all_weighted}));
+            }
+        }
+        let kinds: [(&'static str, Option<Result<(), graphrs::ErrorKind>>, bool, &str); 4] = [
+            ("ensure_directed", call!("ensure_directed", g.ensure_directed().map_err(|e| e.kind)), d, "WrongMethod"),
+            ("ensure_undirected", call!("ensure_undirected", g.ensure_undirected().map_err(|e| e.kind)), !d, "WrongMethod"),
+            ("ensure_not_multi_edges", call!("ensure_not_multi_edges", g.ensure_not_multi_edges().map_err(|e| e.kind)), !m.specs.multi, "WrongMethod"),
+            ("ensure_weighted", call!("ensure_weighted", g.ensure_weighted().map_err(|e| e.kind)), all_weighted, "EdgeWeightNotSpecified"),
+        ];
+        for (fname, r, want_ok, want_err) in kinds {
+            if let Some(r) = r {
+                match (&r, want_ok) {
+                    (Ok(()), true) => {}
+                    (Err(k), false) if err_name(k) == want_err => {}
+                    _ => q.fail(fname, "disagrees-with-specs-or-edge-list", json!({"got": format!("{:?}", r.as_ref().map_err(err_name)), "should_be_ok": want_ok})),
+                }
+            }
+        }
+    }
     if let Some(n) = call!("number_of_nodes", g.number_of_nodes()) {
         if n != m.nodes.len() {
             q.fail("number_of_nodes", "wrong-count", json!({"got": n, "want": m.nodes.len()}));
@@ -823,11 +848,16 @@ pub fn check_queries(g: &G, m: &Model, names: &[String], order_known: bool, prop
     }
     // node-set queries: every subset of at most 3 names (names has <= 7 entries)
     let nn = names.len();
-    for mask in 1u32..(1u32 << nn) {
+    for mask in 0u32..(1u32 << nn) {
         if mask.count_ones() > 3 {
             continue;
         }
+        // mask 0 is the empty request: vacuously "all present", no edges - and still the wrong
+        // kind of graph for the in/out variants on an undirected graph
         let subset: Vec<String> = (0..nn).filter(|i| mask & (1 << i) != 0).map(|i| names[i].clone()).collect();
+        if subset.is_empty() {
+            ctx::count("reach:empty-node-set-query");
+        }
         let all_present = subset.iter().all(|s| m.has_node(s));
         let sset: BTreeSet<&String> = subset.iter().collect();
         if let Some(h) = call!("has_nodes", g.has_nodes(&subset)) {
